@@ -244,3 +244,520 @@ def verify_add_command(repo):
     recs.append({"name": label + "/paths", "status": "unsat" if npaths else "sat", "backend": "engine", "time_s": 0, "function": fi.key, "clause": "cover", "kind": "cover"})
     smt.QUANT["on"] = False
     return recs, [fi.describe()]
+
+
+# =========================================================================== Program.from_source
+LIB_HAS = z3.Function("library_has", Val, Val, z3.BoolSort())
+LIB_GET = z3.Function("library_get", Val, Val, I_)
+
+
+class ProgramInitContract(object):
+    """Program.__init__ (its lookup logic is C19): a program with no commands and a command library; may raise MPilotError"""
+
+    def apply(self, eng, st, f, args, kwargs):
+        ref = f.self_val
+        o = st.get(ref)
+        term = Val.O(z3.IntVal(-ref.oid))
+        o2 = Obj(o.cls, dict(o.fields))
+        o2.fields["commands"] = make_symmap(st, "commands", term)
+        o2.fields["working_dir"] = kwargs.get("working_dir")
+        o2.fields["command_library"] = st.alloc(Obj(ClassV("LibMap"), {"owner": term}), fresh=False)
+        st.set(ref, o2)
+        eng.lx["prog_term"] = term
+        s2 = st.fork()  # (fork before yielding: the consumer keeps mutating the yielded state)
+        yield st, None
+        yield s2, Raised(ExcSym("MPilotError"))
+
+
+class NoopInit(object):
+    def apply(self, eng, st, f, args, kwargs):
+        yield st, None
+
+
+class ParseContract(object):
+    """Parser.parse (C10): a ProgramNode whose nodes have the shapes the grammar actions build, or SyntaxError / ProgramError"""
+
+    def apply(self, eng, st, f, args, kwargs):
+        pn = smt.fresh("program_node", I_)
+        cmds = FLD("commands")(pn)
+        st2 = st.fork()
+        st2.assume(z3.And(Val.is_L(cmds), z3.Or(FLD("version")(pn) == Val.I(2), FLD("version")(pn) == Val.I(3))))
+        st2.ghost["node_lists"] = [Val.items(cmds)]
+        node_shape_facts(st2, Val.items(cmds))
+        yield st2, dyn(Val.O(pn))
+        s3 = st.fork()
+        yield s3, Raised(s3.alloc(Obj(ClassV("SyntaxError"), {})))
+        s4 = st.fork()
+        yield s4, Raised(ExcSym("ProgramError"))
+
+
+class ConvertContract(object):
+    """convert_eems2_commands (C16): one converted node per node, or ProgramError"""
+
+    def apply(self, eng, st, f, args, kwargs):
+        out = smt.fresh("converted_nodes", Val)
+        s2 = st.fork()
+        s2.assume(Val.is_L(out))
+        node_shape_facts(s2, Val.items(out))
+        s2.ghost["node_lists"] = list(s2.ghost.get("node_lists", [])) + [Val.items(out)]
+        yield s2, dyn(out)
+        s3 = st.fork()
+        yield s3, Raised(ExcSym("ProgramError"))
+
+
+class AddCommandContract(object):
+    """Program.add_command (verified above): stores the command or raises DuplicateResult / MissingParameters / NoSuchParameter"""
+
+    def apply(self, eng, st, f, args, kwargs):
+        st.log.append(("add_command", args))
+        node = st.env.get("node")
+        if node is not None and getattr(eng, "from_source_site", False):
+            # what from_source must hand over: the library's class for the node's command name, the node's result name and line
+            nd = Val.ref(eng.to_dyn(st, node))
+            lib = eng.lx["prog_term"]
+            ln = args[3] if len(args) > 3 else kwargs.get("lineno")
+            m = {"clause": "wf"}
+            eng.oblige(st, eng.current.key + "/add_command receives the library class of the node's command name",
+                       eng.to_dyn(st, args[0]) == Val.O(LIB_GET(lib, FLD("command")(nd))), kind="call", meta=m, assume_after=False)
+            eng.oblige(st, eng.current.key + "/add_command receives the node's result name", eng.to_dyn(st, args[1]) == FLD("result_name")(nd), kind="call", meta=m,
+                       assume_after=False)
+            eng.oblige(st, eng.current.key + "/add_command receives the node's line", z3.BoolVal(False) if ln is None else eng.to_dyn(st, ln) == FLD("lineno")(nd), kind="call",
+                       meta={"clause": "lineno"}, assume_after=False)
+            eng.oblige(st, eng.current.key + "/add_command receives the arguments built for this node", z3.BoolVal(args[2] is st.env.get("arguments") or (
+                isinstance(args[2], Ref) and isinstance(st.env.get("arguments"), Ref) and args[2].oid == st.env["arguments"].oid)), kind="call", meta=m, assume_after=False)
+        forks = [(nm, st.fork()) for nm in ("DuplicateResult", "MissingParameters", "NoSuchParameter")]
+        yield st, None
+        for nm, s2 in forks:
+            ln = args[3] if len(args) > 3 else kwargs.get("lineno")
+            yield s2, Raised(s2.alloc(Obj(eng.lookup_class(nm), {"lineno": ln})))
+
+
+class ResolveListContract(object):
+    """nested resolve_list(name, expression_node): a ListArgument for that name carrying the node's line and element lines. Pure."""
+
+    def apply(self, eng, st, f, args, kwargs):
+        name, node = args
+        la = smt.fresh("list_argument", I_)
+        st.assume(z3.And(IS_ARGUMENT(la), FLD("name")(la) == eng.to_dyn(st, name), FLD("lineno")(la) == FLD("lineno")(Val.ref(eng.to_dyn(st, node)))))
+        yield st, dyn(Val.O(la))
+
+
+def node_shape_facts(st, items):
+    """postconditions of the grammar actions (C10) for a list of CommandNodes: quantified over positions"""
+    k, i = z3.Ints("nk ni")
+    nd = Val.ref(items[k])
+    args = Val.items(FLD("arguments")(nd))
+    an = Val.ref(args[i])
+    ev = FLD("value")(an)
+    st.assume(z3.ForAll([k], z3.Implies(z3.And(k >= 0, k < z3.Length(items)), z3.And(
+        Val.is_O(items[k]), Val.is_L(FLD("arguments")(nd)), Val.is_S(FLD("command")(nd)),
+        z3.Or(Val.is_N(FLD("result_name")(nd)), Val.is_S(FLD("result_name")(nd)))))))
+    st.assume(z3.ForAll([k, i], z3.Implies(z3.And(k >= 0, k < z3.Length(items), i >= 0, i < z3.Length(args)), z3.And(
+        Val.is_O(args[i]), Val.is_S(FLD("name")(an)), Val.is_O(ev)))))
+    kv = z3.Const("nkv", Val)
+    from .dyn import DGET
+    inner = FLD("value")(Val.ref(ev))
+    # p_dict / p_dict_items: the values of a dict expression are ExpressionNodes
+    st.assume(z3.ForAll([k, i, kv], z3.Implies(z3.And(k >= 0, k < z3.Length(items), i >= 0, i < z3.Length(args), Val.is_D(inner)),
+                                               Val.is_O(DGET(Val.did(inner), kv)))))
+
+
+class FromOuterLoop(S.LoopContract):
+    """after j nodes: each of them names a command of the library (else CommandDoesNotExist was raised)"""
+
+    def __init__(self, locals_):
+        self.locals = locals_
+
+    def inv(self, I):
+        eng, st = I.eng, I.st
+        for n in self.locals:
+            I.covered.add(n)
+            if I.mode == "abstract" and n in st.env:
+                cur = st.env[n]
+                st.env[n] = st.alloc(Bag(n)) if (isinstance(cur, Ref) and isinstance(st.get(cur), (PyList, PyDict, Bag))) else dyn(smt.fresh("local_" + n, Val))
+        items = st.ghost.get("loop_nodes")
+        if items is None:
+            return
+        j = I.j
+        lib = eng.lx["prog_term"]
+        I.forall_k("every node so far names a library command", lambda k: z3.Implies(z3.And(k >= 0, k < j), LIB_HAS(lib, FLD("command")(Val.ref(items[k])))))
+
+
+def install_from_source(eng):
+    from .models import ModelMixin
+
+    orig_getattr = ModelMixin.get_attr
+
+    if not getattr(ModelMixin, "_libmap_patch", False):
+        def get_attr(self, st, o, name):
+            if isinstance(o, Ref) and isinstance(st.store.get(o.oid), Obj) and st.get(o).cls.name == "LibMap" and name == "get":
+                yield st, BuiltinV("libmap.get", self_val=o)
+                return
+            for r in orig_getattr(self, st, o, name):
+                yield r
+
+        def bi_libmap_get(self, st, args, kw):
+            owner = st.get(args[0]).fields["owner"]
+            key = self.to_dyn(st, args[1])
+            c = LIB_GET(owner, key)
+            st.assume(z3.Implies(LIB_HAS(owner, key), IS_CMDCLASS(c)))
+            yield st, dyn(z3.If(LIB_HAS(owner, key), Val.O(c), Val.N))
+
+        def bi_any(self, st, args, kw):
+            (it,) = args
+            # any(...) of an already evaluated sequence/generator: an undetermined truth value (the element test was evaluated for effects/raises)
+            yield st, Sym("bool", smt.fresh("any", z3.BoolSort()))
+
+        def bi_collections_OrderedDict(self, st, args, kw):
+            yield st, st.alloc(PyDict({}))
+
+        orig_set_item = ModelMixin.set_item
+
+        def set_item(self, st, o, idx, v):
+            if getattr(self, "from_source_site", False) and isinstance(o, Ref) and isinstance(st.env.get("arguments"), Ref) and o.oid == st.env["arguments"].oid \
+                    and st.env.get("argument_node") is not None:
+                an = Val.ref(self.to_dyn(st, st.env["argument_node"]))
+                key = self.current.key
+                if isinstance(v, Ref) and isinstance(st.store.get(v.oid), Obj):
+                    ob = st.get(v)
+                    isarg = ob.cls.name in ("Argument", "ListArgument")
+                    nm = self.to_dyn(st, ob.fields.get("name")) if "name" in ob.fields else None
+                    ln = self.to_dyn(st, ob.fields.get("lineno")) if "lineno" in ob.fields else None
+                    val = ob.fields.get("value")
+                else:
+                    t = self.to_dyn(st, v)
+                    isarg = self.entails(st, z3.And(Val.is_O(t), IS_ARGUMENT(Val.ref(t))))
+                    nm, ln, val = FLD("name")(Val.ref(t)), FLD("lineno")(Val.ref(t)), None
+                self.oblige(st, key + "/every stored argument is an Argument", z3.BoolVal(bool(isarg)), kind="store", meta={"clause": "wf"}, assume_after=False)
+                self.oblige(st, key + "/stored under the argument node's name", self.to_dyn(st, idx) == FLD("name")(an), kind="store", meta={"clause": "wf"}, assume_after=False)
+                self.oblige(st, key + "/the Argument carries the argument node's name", z3.BoolVal(False) if nm is None else nm == FLD("name")(an), kind="store",
+                            meta={"clause": "wf"}, assume_after=False)
+                self.oblige(st, key + "/the Argument carries the line of the argument or of its value expression", z3.BoolVal(False) if ln is None else z3.Or(ln == FLD("lineno")(an), ln == FLD("lineno")(Val.ref(FLD("value")(an)))), kind="store",
+                            meta={"clause": "lineno"}, assume_after=False)
+                if val is not None and not (isinstance(val, Ref) and isinstance(st.store.get(val.oid), (Bag, Obj))):
+                    # scalar branch: the parsed value itself
+                    self.oblige(st, key + "/a scalar Argument carries the parsed value", self.to_dyn(st, val) == FLD("value")(Val.ref(FLD("value")(an))), kind="store",
+                                meta={"clause": "wf"}, assume_after=False)
+            for r in orig_set_item(self, st, o, idx, v):
+                yield r
+
+        ModelMixin.set_item = set_item
+        ModelMixin.get_attr = get_attr
+        ModelMixin.bi_libmap_get = bi_libmap_get
+        ModelMixin.bi_any = bi_any
+        ModelMixin.bi_collections_OrderedDict = bi_collections_OrderedDict
+        ModelMixin._libmap_patch = True
+
+
+def verify_from_source(repo):
+    smt.QUANT["on"] = True
+    eng = Engine(repo, {}, dict(S.LOOPS))
+    install(eng)
+    install_from_source(eng)
+    from . import parseprops
+
+    parseprops.install_action_models(eng, {})
+    eng.load_mode = True
+    eng.heap_mode = True
+    eng.from_source_site = True
+    eng.lx = {}
+    recs = eng.results
+    fi = repo.func(FROM)
+    eng.current = fi
+    eng.inline_ok = {"mpilot/arguments.py::Argument.__init__", "mpilot/arguments.py::ListArgument.__init__", PRG + "::Program.find_command_class"}
+    eng.contracts = {
+        PRG + "::Program.__init__": ProgramInitContract(),
+        "mpilot/parser/parser.py::Parser.__init__": NoopInit(),
+        "mpilot/parser/parser.py::Parser.parse": ParseContract(),
+        "mpilot/utils.py::convert_eems2_commands": ConvertContract(),
+        ADD: AddCommandContract(),
+        FROM + ".resolve_list": ResolveListContract(),
+    }
+    loops = [n for n in _ordered(fi.node) if isinstance(n, (ast.For, ast.While))]
+    for i, n in enumerate(loops):
+        if i == 0:
+            eng.loop_contracts[(fi.key, "for", i)] = FromOuterLoop(sorted(assigned_names(n)))
+        else:
+            eng.loop_contracts[(fi.key, "for", i)] = FrameLoop(sorted(assigned_names(n)))
+    st = State()
+    st.add_cell("c")
+    st.kterms.append(z3.IntVal(0))
+    src = Sym("str", smt.fresh("source", z3.StringSort()))
+    cls = ClassV("Program", repo.modules[PRG].classes["Program"])
+
+    # remember the node list the main loop iterates over, and give it the parser's shape facts
+    orig_as_seq = eng.as_sequence
+
+    def as_sequence(s, v):
+        for s2, seq in orig_as_seq(s, v):
+            if isinstance(seq, SeqV) and seq.tag == "dynlist" and "as_seq" in seq.meta and any(z3.simplify(seq.meta["as_seq"]).eq(z3.simplify(t)) for t in s2.ghost.get("node_lists", [])):
+                s2.ghost["loop_nodes"] = seq.meta["as_seq"]
+            yield s2, seq
+
+    eng.as_sequence = as_sequence
+    label = fi.key
+    npaths = 0
+    try:
+        outs = list(eng.run_function(fi, st, {"cls": cls, "source": src, "libraries": dyn(smt.fresh("libraries", Val)), "working_dir": dyn(smt.fresh("wd", Val))}, cls=fi.cls))
+    except Unsupported as e:
+        recs.append({"name": label + "/supported", "status": "unknown", "backend": "engine", "time_s": 0, "function": fi.key, "clause": "wf", "reason": "unsupported: %s" % e})
+        smt.QUANT["on"] = False
+        return recs, [fi.describe()]
+    for s1, out in outs:
+        npaths += 1
+        m = lambda c: {"clause": c}
+        if out[0] == "raise":
+            exc = out[1]
+            if isinstance(exc, ExcSym):
+                ok = eng.class_is_subclass(ClassV(exc.base, eng.find_exc_class(exc.base)), "MPilotError")
+                recs.append({"name": label + "/raises_only(SyntaxError, MPilotError):<%s>" % exc.base, "status": "unsat" if ok else "sat", "backend": "engine", "time_s": 0,
+                             "function": fi.key, "clause": "raises_only"})
+                continue
+            o = s1.get(exc)
+            nm = o.cls.name
+            ok = nm == "SyntaxError" or eng.class_is_subclass(o.cls, "MPilotError")
+            if not ok:
+                eng.oblige(s1, label + "/raises_only(SyntaxError, MPilotError):%s" % nm, z3.BoolVal(False), kind="raises", meta=m("raises_only"), assume_after=False)
+            else:
+                recs.append({"name": label + "/raises_only(SyntaxError, MPilotError):%s" % nm, "status": "unsat", "backend": "engine", "time_s": 0, "function": fi.key,
+                             "clause": "raises_only"})
+            if nm == "CommandDoesNotExist":
+                items = s1.ghost.get("loop_nodes")
+                lib = eng.lx["prog_term"]
+                nmv, ln = o.fields.get("name"), o.fields.get("lineno")
+                ks = s1.all_kterms()
+                goal = z3.Or(*[z3.And(k >= 0, k < z3.Length(items), z3.Not(LIB_HAS(lib, FLD("command")(Val.ref(items[k])))),
+                                      eng.to_dyn(s1, nmv) == FLD("command")(Val.ref(items[k])), eng.to_dyn(s1, ln) == FLD("lineno")(Val.ref(items[k]))) for k in ks]) \
+                    if items is not None else z3.BoolVal(False)
+                eng.oblige(s1, label + "/CommandDoesNotExist names a node whose command is not in the library, with that node's line", goal, kind="raises",
+                           meta=m("wf"), assume_after=False)
+            continue
+        items = s1.ghost.get("loop_nodes")
+        if items is not None:
+            k = s1.add_k("k_post")
+            eng.oblige(s1, label + "/accepted => every command name is in the selected libraries",
+                       z3.Implies(z3.And(k >= 0, k < z3.Length(items)), LIB_HAS(eng.lx["prog_term"], FLD("command")(Val.ref(items[k])))), kind="ensures", meta=m("wf"), assume_after=False)
+    recs.append({"name": label + "/paths", "status": "unsat" if npaths else "sat", "backend": "engine", "time_s": 0, "function": fi.key, "clause": "cover", "kind": "cover"})
+    smt.QUANT["on"] = False
+    return recs, [fi.describe()]
+
+
+def verify_resolve_list(repo):
+    """body of the nested resolve_list against ResolveListContract (recursive calls use the contract)"""
+    smt.QUANT["on"] = True
+    eng = Engine(repo, {}, dict(S.LOOPS))
+    install(eng)
+    install_from_source(eng)
+    eng.load_mode = True
+    eng.heap_mode = True
+    eng.lx = {}
+    recs = eng.results
+    fi = repo.func(FROM + ".resolve_list")
+    eng.current = fi
+    eng.inline_ok = {"mpilot/arguments.py::Argument.__init__", "mpilot/arguments.py::ListArgument.__init__"}
+    eng.contracts = {FROM + ".resolve_list": ResolveListContract()}
+    st = State()
+    st.add_cell("c")
+    st.kterms.append(z3.IntVal(0))
+    name = dyn(smt.fresh("name", Val))
+    nodeid = smt.fresh("expression_node", I_)
+    node = dyn(Val.O(nodeid))
+    elems = Val.items(FLD("value")(nodeid))
+    k = z3.Int("rk")
+    st.assume(z3.And(Val.is_S(name.t), Val.is_L(FLD("value")(nodeid))))
+    st.assume(z3.ForAll([k], z3.Implies(z3.And(k >= 0, k < z3.Length(elems)), Val.is_O(elems[k]))))
+    label = fi.key
+    m = lambda c: {"clause": c}
+    try:
+        outs = list(eng.run_function(fi, st, {"name": name, "expression_node": node, "resolve_list": FuncV(fi, env={})}, cls=None))
+    except Unsupported as e:
+        recs.append({"name": label + "/supported", "status": "unknown", "backend": "engine", "time_s": 0, "function": fi.key, "clause": "wf", "reason": "unsupported: %s" % e})
+        smt.QUANT["on"] = False
+        return recs, [fi.describe()]
+    n = 0
+    for s1, out in outs:
+        n += 1
+        if out[0] == "raise":
+            eng.oblige(s1, label + "/never raises on a parsed list expression", z3.BoolVal(False), kind="raises", meta=m("raises_only"), assume_after=False)
+            continue
+        v = out[1]
+        ob = s1.get(v) if isinstance(v, Ref) and isinstance(s1.store.get(v.oid), Obj) else None
+        eng.oblige(s1, label + "/returns a ListArgument", z3.BoolVal(ob is not None and ob.cls.name == "ListArgument"), kind="ensures", meta=m("wf"), assume_after=False)
+        if ob is None:
+            continue
+        eng.oblige(s1, label + "/for the given name", eng.to_dyn(s1, ob.fields["name"]) == name.t, kind="ensures", meta=m("wf"), assume_after=False)
+        eng.oblige(s1, label + "/with the list expression's line", eng.to_dyn(s1, ob.fields["lineno"]) == FLD("lineno")(nodeid), kind="ensures", meta=m("lineno"), assume_after=False)
+        ll = ob.fields.get("list_linenos")
+        lo = s1.get(ll) if isinstance(ll, Ref) else None
+        seq = getattr(lo, "seq", None)
+        kk = s1.add_k("k_ll")
+        if seq is not None:
+            eng.oblige(s1, label + "/and one line per element, the element's own", z3.And(seq.n == z3.Length(elems), z3.Implies(z3.And(kk >= 0, kk < seq.n),
+                       eng.to_dyn(s1, seq.get(kk)) == FLD("lineno")(Val.ref(elems[kk])))), kind="ensures", meta=m("lineno"), assume_after=False)
+        else:
+            eng.oblige(s1, label + "/and one line per element, the element's own", z3.BoolVal(False), kind="ensures", meta=m("lineno"), assume_after=False)
+    recs.append({"name": label + "/paths", "status": "unsat" if n else "sat", "backend": "engine", "time_s": 0, "function": fi.key, "clause": "cover", "kind": "cover"})
+    smt.QUANT["on"] = False
+    return recs, [fi.describe()]
+
+
+# =========================================================================== mpilot.cli.mpilot.main
+CLI = "mpilot/cli/mpilot.py::main"
+
+
+class FromSourceContract(object):
+    """Program.from_source (verified above): a Program, or SyntaxError, or an MPilotError; a ProgramError's line is None or a line of
+    the source (C11: 1 <= lineno <= number of lines)"""
+
+    def apply(self, eng, st, f, args, kwargs):
+        st.log.append(("from_source", args, kwargs))
+        s2, s3, s4 = st.fork(), st.fork(), st.fork()
+        prog = st.alloc(Obj(ClassV("Program", eng.repo.modules[PRG].classes["Program"]), {}))
+        yield st, prog
+        yield s2, Raised(s2.alloc(Obj(ClassV("SyntaxError"), {})))
+        yield s3, Raised(mp_error(eng, s3))
+        yield s4, Raised(mp_error(eng, s4, True))
+
+
+class ProgramRunContract(object):
+    """Program.run (C01/C13): returns None or raises an MPilotError (same line discipline)"""
+
+    def apply(self, eng, st, f, args, kwargs):
+        st.log.append(("program-run",))
+        s3, s4 = st.fork(), st.fork()
+        yield st, None
+        yield s3, Raised(mp_error(eng, s3))
+        yield s4, Raised(mp_error(eng, s4, True))
+
+
+def mp_error(eng, st, with_line=None):
+    st.log.append(("mp-error",))
+    if with_line is None:
+        return ExcSym("MPilotError", fields={"lineno": None})
+    ln = smt.fresh("error_lineno", I_)
+    nlines = eng.lx["nlines"]
+    st.assume(z3.And(ln >= 1, ln <= nlines))
+    eng.lx["err_lineno"] = ln
+    return ExcSym("MPilotError", fields={"lineno": Sym("num", z3.ToReal(ln), True)})
+
+
+def install_cli(eng):
+    from .models import ModelMixin
+
+    if getattr(ModelMixin, "_cli_patch", False):
+        return
+
+    def bi_sys_stderr_write(self, st, args, kw):
+        if not self.is_str(args[-1]):
+            yield self.raise_(st, "TypeError", "write() argument must be str")
+            return
+        st.log.append(("stderr", args[-1]))
+        yield st, None
+
+    def bi_sys_exit(self, st, args, kw):
+        st.log.append(("exit", args[0] if args else None, dict(st.env)))
+        yield st, Raised(st.alloc(Obj(ClassV("SystemExit"), {"code": args[0] if args else None})))
+
+    def bi_file_readlines(self, st, args, kw):
+        n = smt.fresh("nlines", I_)
+        st.assume(n >= 0)
+        LINE = z3.Function("file_line", I_, z3.StringSort())
+        self.lx["raw_nlines"] = n
+        st.assume(n == self.lx["nlines"])  # the source handed to from_source is "\n".join of exactly these lines
+        yield st, st.alloc(PyList(seq=SeqV(n, lambda k: Sym("str", LINE(k)), tag="lines")))
+
+    def _minmax(self, st, args, is_max):
+        from .values import is_num, num_term, isint_of
+        if len(args) != 2 or not all(is_num(a) for a in args):
+            raise Unsupported("max/min of non-numbers")
+        a, b = args
+        c = (num_term(a) >= num_term(b)) if is_max else (num_term(a) <= num_term(b))
+        yield st, self.ite_value(c, a, b)
+
+    def bi_max(self, st, args, kw):
+        for r in _minmax(self, st, args, True):
+            yield r
+
+    def bi_min(self, st, args, kw):
+        for r in _minmax(self, st, args, False):
+            yield r
+
+    ModelMixin.bi_max = bi_max
+    ModelMixin.bi_min = bi_min
+    ModelMixin.bi_sys_stderr_write = bi_sys_stderr_write
+    ModelMixin.bi_sys_exit = bi_sys_exit
+    ModelMixin.bi_file_readlines = bi_file_readlines
+    ModelMixin._cli_patch = True
+
+
+def verify_cli(repo):
+    """cli.main: every path that catches an MPilotError writes the message to stderr, marks lines[lineno-1] and leaves through sys.exit
+    with a non-zero status; nothing but SystemExit / SyntaxError escapes"""
+    smt.QUANT["on"] = False
+    eng = Engine(repo, {}, dict(S.LOOPS))
+    install(eng)
+    install_cli(eng)
+    from . import serprops  # noqa: F401  (installs the exact model of str.format with plain `{}` fields)
+
+    eng.precise_format = True
+    eng.lx = {"nlines": z3.Int("source_nlines")}
+    recs = eng.results
+    fi = repo.func(CLI)
+    eng.current = fi
+    eng.contracts = {FROM: FromSourceContract(), PRG + "::Program.run": ProgramRunContract()}
+    st = State()
+    st.add_cell("c")
+    st.kterms.append(z3.IntVal(0))
+    label = fi.key
+    m = lambda c: {"clause": c}
+    args = {"library": Sym("str", smt.fresh("library", z3.StringSort())), "path": Sym("str", smt.fresh("path", z3.StringSort())),
+            "libraries": TupleV([])}
+    try:
+        outs = list(eng.run_function(fi, st, args, cls=None))
+    except Unsupported as e:
+        recs.append({"name": label + "/supported", "status": "unknown", "backend": "engine", "time_s": 0, "function": fi.key, "clause": "cli", "reason": "unsupported: %s" % e})
+        return recs, [fi.describe()]
+    n = 0
+    for s1, out in outs:
+        n += 1
+        caught = any(ev[0] == "stderr" and isinstance(ev[1], (str, Sym)) for ev in s1.log) and any(ev[0] in ("from_source",) for ev in s1.log)
+        if out[0] == "raise":
+            exc = out[1]
+            if isinstance(exc, ExcSym):
+                eng.oblige(s1, label + "/no MPilotError leaves main un-reported", z3.BoolVal(False), kind="raises", meta=m("cli"), assume_after=False)
+                continue
+            o = s1.get(exc)
+            if o.cls.name == "SystemExit":
+                envx = ([ev[2] for ev in s1.log if ev[0] == "exit"] or [{}])[-1]
+                ex = envx.get("ex")
+                if isinstance(ex, ExcSym) and isinstance(ex.fields.get("lineno"), Sym):
+                    # C11: the marked line is the line the error carries
+                    isa = ex.is_a.get("ProgramError")
+                    ln = z3.ToInt(ex.fields["lineno"].t)
+                    lines = envx.get("lines")
+                    seq = eng.list_seq(s1.get(lines)) if isinstance(lines, Ref) else None
+                    evs = [ev[1] for ev in s1.log if ev[0] == "stderr"]
+                    if seq is None:
+                        goal = z3.BoolVal(False)
+                    else:
+                        want = z3.Concat(z3.StringVal("--> "), eng.str_term(seq.get(z3.simplify(ln - 1))))
+                        goal = z3.Or(*[eng.str_term(e) == want for e in evs]) if evs else z3.BoolVal(False)
+                    eng.oblige(s1, label + "/the line marked with --> is line `lineno` of the file", goal if isa is None else z3.Implies(isa, goal), kind="ensures",
+                               meta=m("lineno"), assume_after=False)
+                code = o.fields.get("code")
+                nz = (isinstance(code, int) and code != 0)
+                eng.oblige(s1, label + "/exit status is non-zero", z3.BoolVal(bool(nz)), kind="ensures", meta=m("cli"), assume_after=False)
+                errs = [ev for ev in s1.log if ev[0] == "stderr"]
+                eng.oblige(s1, label + "/something is written to standard error before exiting", z3.BoolVal(bool(errs)), kind="ensures", meta=m("cli"), assume_after=False)
+            elif o.cls.name == "SyntaxError":
+                recs.append({"name": label + "/raises_only(SystemExit, SyntaxError):SyntaxError", "status": "unsat", "backend": "engine", "time_s": 0, "function": fi.key, "clause": "raises_only"})
+            else:
+                eng.oblige(s1, label + "/raises_only(SystemExit, SyntaxError):%s" % o.cls.name, z3.BoolVal(False), kind="raises", meta=dict(m("raises_only"), exc_msg=str(o.fields.get("args"))[:100]),
+                           assume_after=False)
+        else:
+            ran = any(ev[0] == "program-run" for ev in s1.log)
+            failed = any(ev[0] == "mp-error" for ev in s1.log)
+            eng.oblige(s1, label + "/returns normally only after the program ran", z3.BoolVal(ran), kind="ensures", meta=m("cli"), assume_after=False)
+            eng.oblige(s1, label + "/never returns normally (status 0) after an MPilotError", z3.BoolVal(not failed), kind="ensures", meta=m("cli"), assume_after=False)
+    recs.append({"name": label + "/paths", "status": "unsat" if n else "sat", "backend": "engine", "time_s": 0, "function": fi.key, "clause": "cover", "kind": "cover"})
+    return recs, [fi.describe()]
